@@ -1,8 +1,9 @@
 (** Extraction of the C04 ticker model (ExtrOcamlBasic only; N/Z/positive/nat stay inductive). *)
 Require Extraction.
 Require Import ExtrOcamlBasic.
-From Kardia Require Import C04.Model C04.MedianModel.
+From Kardia Require Import C04.Model C04.MedianModel C04.StepModel.
 Extraction Language OCaml.
 Set Extraction KeepSingleton.
 From Kardia Require Import Base.Anchor.
-Extraction "../ocaml/C04/model.ml" Anchor.anchor Model.init Model.step MedianModel.median_time.
+Extraction "../ocaml/C04/model.ml" Anchor.anchor Model.init Model.step MedianModel.median_time
+  StepModel.handle_timeout StepModel.node_of StepModel.timeout_dur StepModel.wait_for_txs.
